@@ -45,6 +45,18 @@ CHECKS.update({
    note="Relies on hooks in vm.rs / wasm.rs (additive, cfg mimium_verif). Closure-private storages are checked for bounds only. Input streams are chosen so that both arms of generated conditionals run.",
    design="4/C05"),
 })
+CHECKS.update({
+ "C06": dict(
+   technique="explicit-state exploration of swap histories over the real runtime: all histories with <= T steps and <= s same-text swaps, executed by re-execution from the initial state (shape S)",
+   text="For every stateful program of the families below the bound, every history of T steps with swaps to a fresh compilation of the same source at every tuple of split points (including two swaps with no step between) is executed on the real VM runtime, and every single-swap history on the real WASM runtime with both payload variants the CLI prepares; every step's outputs and state words must equal the uninterrupted run's.",
+   note="The WASM payload preparation is a copy of the CLI's private helper functions. Bounds: T steps, s swaps, program size.",
+   design="4/C06"),
+ "C07": dict(
+   technique="explicit-state exploration of (old program, edit, swap time) histories with compile-fault injection over the real runtimes, differential oracle against uninterrupted and fresh runs (shape S)",
+   text="Programs are fixed-arity tuples of independent stateful voices; for every old program, slot and edit (insert, delete, replace, constant change, nesting, non-compiling text) and every swap time the real runtime is driven through run / compile / hot-swap / run, and each channel is compared with the uninterrupted run of the old program (untouched sites), a fresh run started at the swap time (new sites) or the closed form of a counter (changed constant); a non-compiling edit must be rejected and change nothing.",
+   note="Any order-preserving pairing among identically written siblings is accepted. Expected values come from other runs of the same runtime, never from hand-written numbers.",
+   design="4/C07"),
+})
 NOT_YET = {}
 
 def main():
